@@ -195,6 +195,8 @@ Sch(id) ==
     [] id = 16 -> [m1 |-> Ms([host |-> "float", a |-> "integer"], {"host"})]               \* field host shadows tag host
     [] id = 17 -> [m1 |-> Ms([x |-> "string", mean |-> "float", b |-> "unsigned"], {"region", "count"})]
     [] id = 18 -> [m1 |-> Ms([a |-> "float", b |-> "integer", c |-> "unsigned", x |-> "string", mx |-> "boolean"], {"host"})] \* all five types
+    [] id = 19 -> [m1 |-> Ms([a |-> "float"], {"host", "region"})]                          \* exactly one field, two tags
+    [] id = 20 -> [m1 |-> Ms([c |-> "integer"], {"a"})]                                     \* one field, one tag
     \* every pair of field types (or absence) for the same name in two measurements
     [] id \in 100..135 -> LET t1 == TypeSeq[((id - 100) \div 6) + 1] t2 == TypeSeq[((id - 100) % 6) + 1] IN
                           [m1 |-> Ms(OneField("a", t1) @@ [b |-> "integer"], {"host"}),
